@@ -74,7 +74,7 @@ CONSTANTS Kind,        \* "value" | "map"
           MaxBad,      \* malformed frames the remote side may send (map downlinks)
           AllowBadCmd, \* consumers may write garbage / keys that are not UTF-8 on their command channel
           AllowTakeDrop, \* the lane may emit take(n) / drop(n) events
-          Fixed,       \* findings repaired in the tree under test (subset of {"F10a","F10b","F10d"})
+          Fixed,       \* findings repaired in the tree under test (subset of {"F10a","F10b"})
           Enabled      \* open known findings (deviation actions of P)
 
 VARIABLES
@@ -246,14 +246,13 @@ R_Event ==
     /\ UNCHANGED <<lane, rlinked, outbox, wire, aq, cq, cstate, copt, ncmd, nset, stopped, closing,
                    attVars, rs, dl, awL, awS, reg, writeVars, done>>
 
-\* interpret_frame_data fails and the strategy says Ignore.  The code does not skip the frame: the
-\* buffer it cleared before interpreting is forwarded as an event without a body (F10d).
+\* interpret_frame_data fails and the strategy says Ignore: `continue` - the frame is skipped
+\* (sync_event is set only after a successful interpretation; the current value is a value lane's
+\* business, whose interpretation cannot fail)
 R_BadIgnore ==
     /\ G_R_Message /\ BadMsg /\ strat = "ignore"
     /\ down' = Tail(down)
-    /\ IF "F10d" \in Fixed
-         THEN UNCHANGED <<syncEv, cur, timer>> /\ Observe(<<>>)
-         ELSE syncEv' = TRUE /\ cur' = [o |-> "empty"] /\ Forward([o |-> "empty"])
+    /\ UNCHANGED <<syncEv, cur, timer>> /\ Observe(<<>>)
     /\ UNCHANGED <<lane, rlinked, outbox, wire, aq, cq, cstate, copt, ncmd, nset, stopped, closing,
                    attVars, rs, dl, awL, awS, reg, writeVars, done>>
 
@@ -275,6 +274,14 @@ R_Unlinked ==
 \* consumer is unlinked, the runtime stops (run() logs the report)
 R_BadAbort ==
     /\ G_R_Message /\ BadMsg /\ strat = "abort"
+    /\ down' = Tail(down)
+    /\ EndRead(awL \o awS \o reg)
+    /\ UNCHANGED <<lane, rlinked, outbox, wire, aq, cq, cstate, copt, ncmd, nset, stopped, closing,
+                   wq, attDone, dl, cur, syncEv, timer, writeVars, done>>
+
+\* MessagesStopped / ReadFailed: the socket ended (after everything that was still in it)
+R_SockClosed ==
+    /\ G_R_Message /\ Msg.t = "closed"
     /\ down' = Tail(down)
     /\ EndRead(awL \o awS \o reg)
     /\ UNCHANGED <<lane, rlinked, outbox, wire, aq, cq, cstate, copt, ncmd, nset, stopped, closing,
@@ -444,6 +451,14 @@ W_Wr_Reg ==
 G_W_Stop == /\ WriteTurn /\ StopReady
             /\ \/ ws = "idle" /\ (wreg # {} \/ flushed \/ FlushDone)
                \/ Writing /\ ~FlushDone /\ ~AnyRec
+\* a write / flush into a socket that has gone fails: "Flushing the output failed", the task ends
+G_W_SockFail == /\ WriteTurn /\ p.closed = "rclose" /\ ~FlushDone
+                /\ (ws \in {"start", "wsync", "wflush"} \/ (ws = "idle" /\ ~flushed))
+W_SockFail ==
+    /\ G_W_SockFail
+    /\ ws' = "stopped"
+    /\ UNCHANGED <<envVars, attVars, readVars, flushed, needsSync, fstart, bp, wreg, done>> /\ Silent
+
 W_Stop ==
     /\ G_W_Stop
     /\ ws' = "stopped"
@@ -455,7 +470,7 @@ Quiescent ==
     ~(\/ G_A_Fwd \/ G_A_Stop
       \/ G_R_NewConsumer \/ G_R_Message \/ G_R_Stop
       \/ G_W_LinkDone \/ G_W_IdleEmpty_Reg \/ G_W_Idle_Block \/ G_W_Idle_Reg \/ G_W_Wr_Done \/ G_W_Wr_Reg
-      \/ G_W_Stop
+      \/ G_W_Stop \/ G_W_SockFail
       \/ \E c \in Consumers : G_W_Idle_Rec(c) \/ G_W_Idle_Gone(c) \/ G_W_Wr_Rec(c) \/ G_W_Wr_Gone(c))
 
 -----------------------------------------------------------------------------
@@ -533,15 +548,18 @@ Snapshot ==
       ELSE LET ks == SelectSeq(KeySeq, LAMBDA k : LookUp(lane, k) # {}) IN
            [i \in 1..Len(ks) |-> Ev([o |-> "upd", k |-> ks[i], v |-> CHOOSE x \in LookUp(lane, ks[i]) : TRUE])]
 
+\* a command whose key is not valid UTF-8 is no command of the lane: ignored
+Valid(op) == "badkey" \notin DOMAIN op
 Answer(f) ==
     IF f.t = "link" THEN <<Lk>>
     ELSE IF f.t = "sync" THEN (IF rlinked THEN <<>> ELSE <<Lk>>) \o Snapshot \o <<Sy>>
-    ELSE IF rlinked THEN <<Ev(f.op)>> ELSE <<>>
+    ELSE IF rlinked /\ Valid(f.op) THEN <<Ev(f.op)>> ELSE <<>>
 
 RSends(ns) == [i \in 1..Len(ns) |-> [k |-> "rsend", n |-> ns[i]]]
 
 \* the frame at the head of the wire can be read: its flush is being driven
-Readable == wire # <<>> /\ ~(ws = "idle" /\ wreg # {} /\ ~flushed /\ ~fstart)
+SockOpen == p.closed # "rclose"
+Readable == SockOpen /\ wire # <<>> /\ ~(ws = "idle" /\ wreg # {} /\ ~flushed /\ ~fstart)
 
 \* Without a poll of the runtime in between, only the frames that are wholly inside the socket
 \* can be read (the first SockCap ones); otherwise the read completes with the writer's help,
@@ -555,7 +573,7 @@ RRead(hold) ==
            out == IF hold THEN <<>> ELSE outbox \o ans IN
        /\ wire' = Tail(wire)
        /\ rlinked' = (rlinked \/ f.t \in {"link", "sync"})
-       /\ lane' = IF f.t = "cmd" THEN ApplyOp(lane, f.op) ELSE lane
+       /\ lane' = IF f.t = "cmd" /\ Valid(f.op) THEN ApplyOp(lane, f.op) ELSE lane
        /\ outbox' = IF hold THEN outbox \o ans ELSE <<>>
        /\ down' = down \o out
        /\ Act([k |-> "rread", hold |-> hold, frame |-> f, resp |-> out],
@@ -575,6 +593,9 @@ RSet(o, k) ==
     /\ o \in (IF Kind = "value" THEN {"set"}
               ELSE {"upd", "rem"} \cup (IF AllowTakeDrop THEN {"take", "drop"} ELSE {})) /\ k \in KeyChoice(o)
     /\ nset < MaxSet /\ Open /\ MayAct
+    \* take / drop mean something only relative to the whole map: the lane emits them on a link that has
+    \* seen a complete snapshot (what the link has carried so far folds to the lane's state)
+    /\ (o \in {"take", "drop"}) => (rlinked /\ LastView(p) = lane)
     /\ LET op == MkOp(o, k, RVal(nset + 1))
            out == IF rlinked THEN outbox \o <<Ev(op)>> ELSE outbox IN
        /\ nset' = nset + 1 /\ lane' = ApplyOp(lane, op)
@@ -589,6 +610,8 @@ RSet(o, k) ==
 BadOp == [o |-> "bad", b |-> 0]
 RBad ==
     /\ IsMapKind /\ nbad < MaxBad /\ Open /\ MayAct
+    \* (without interpretation the body is just an event: the lane's side sends events only once linked)
+    /\ (Kind = "mapevent") => rlinked
     /\ nbad' = nbad + 1 /\ burst' = TRUE /\ breads' = Reads0
     /\ closing' = (Kind = "map" /\ strat = "abort")
     /\ LET out == outbox \o <<Ev(BadOp)>>
@@ -608,6 +631,15 @@ AttachLate(c, o) ==
     /\ NoRead
     /\ UNCHANGED <<lane, rlinked, outbox, down, wire, aq, cq, copt, ncmd, nset, stopped, closing,
                    attVars, readVars, writeVars, done>>
+
+\* the connection goes away (dropped, or bytes that are no envelope): what the remote had not yet
+\* delivered is lost, nothing can be read from the socket any more
+RClose ==
+    /\ AllowStop /\ Open /\ MayAct
+    /\ closing' = TRUE /\ outbox' = <<>> /\ down' = Append(down, [t |-> "closed"])
+    /\ Act([k |-> "rclose"], <<[k |-> "rclose"]>>)
+    /\ NoRead
+    /\ UNCHANGED <<lane, rlinked, wire, aq, cq, cstate, copt, ncmd, nset, stopped, attVars, readVars, writeVars, done>>
 
 RUnlink ==
     /\ AllowStop /\ rlinked /\ Open /\ MayAct
@@ -638,8 +670,8 @@ Finish ==
 
 Next ==
     \/ A_Fwd \/ A_Stop
-    \/ R_NewConsumer \/ R_Linked \/ R_Synced \/ R_Event \/ R_BadIgnore \/ R_BadAbort \/ R_Unlinked \/ R_Stop
-    \/ W_LinkDone \/ W_IdleEmpty_Reg \/ W_Idle_Block \/ W_Idle_Reg \/ W_Wr_Done \/ W_Wr_Reg \/ W_Stop
+    \/ R_NewConsumer \/ R_Linked \/ R_Synced \/ R_Event \/ R_BadIgnore \/ R_BadAbort \/ R_Unlinked \/ R_SockClosed \/ R_Stop
+    \/ W_LinkDone \/ W_IdleEmpty_Reg \/ W_Idle_Block \/ W_Idle_Reg \/ W_Wr_Done \/ W_Wr_Reg \/ W_Stop \/ W_SockFail
     \/ \E c \in Consumers : W_Idle_Rec(c) \/ W_Idle_Gone(c) \/ W_Wr_Rec(c) \/ W_Wr_Gone(c)
     \/ \E c \in Consumers : \E o \in OptSet : Attach(c, o)
     \/ \E c \in Consumers : \E o \in OptSet : AttachLate(c, o)
@@ -647,7 +679,7 @@ Next ==
     \/ \E c \in Consumers : CDrop(c)
     \/ RRead(FALSE) \/ (AllowHold /\ RRead(TRUE)) \/ RPush
     \/ \E o \in {"set", "upd", "rem", "take", "drop"} : \E k \in Keys \cup {"*"} : RSet(o, k)
-    \/ RBad \/ RUnlink \/ Stop \/ Finish
+    \/ RBad \/ RClose \/ RUnlink \/ Stop \/ Finish
 
 Spec == Init /\ [][Next]_vars
 
@@ -669,8 +701,7 @@ ListsDisjoint ==
     /\ SeqToSet(awS) \cap SeqToSet(reg) = {}
     /\ Len(awL) = Cardinality(SeqToSet(awL)) /\ Len(awS) = Cardinality(SeqToSet(awS))
     /\ Len(reg) = Cardinality(SeqToSet(reg))
-    \* (a malformed frame that is forwarded while consumers wait for linked strands them: F10d)
-    /\ (dl # "init") => (awL = <<>> \/ nbad > 0)
+    /\ (dl # "init") => awL = <<>>
 
 \* backpressure (and NEEDS_SYNC) are used only while a write is pending
 BackpressureOnlyWhileWriting == (bp # <<>> \/ needsSync) => (Writing \/ ws = "stopped")
